@@ -76,6 +76,8 @@ class Renderer:
         """expression that denotes symbol `name` (living in module `home`) inside module `mod`."""
         if home == mod:
             return name
+        if home.startswith("H:"):
+            raise ValueError("helper-package functions are only reached by a function-level module import")
         base = self.xpkg if name in self.ext_names else self.pkg
         full = f"{base}.{home}"
         if form in (None, "from", "plain", "hof"):
@@ -145,6 +147,11 @@ class Renderer:
             e = "str(" + self.sym(mod, it["var"], v["module"], v.get("access"), imports) + ")"
         elif k == "const":
             e = self.epv(it["expr"])
+        elif k == "call" and it.get("form") == "local_module_import":
+            # a separate accepted top-level module that nothing else imports is imported inside the function body
+            f = _fn(self.spec, it["fn"])
+            hmod = self.pkg.replace("vp", "vh").replace("vr", "vh") + "." + f["module"][2:]
+            return [f"import {hmod}", f"_{i} = {hmod}.{it['fn']}()"]
         elif k == "call" and it.get("form") == "local_import":
             # the callee is imported inside the function body, not at module level
             f = _fn(self.spec, it["fn"])
@@ -174,6 +181,8 @@ class Renderer:
         elif k == "eval":
             f = _fn(self.spec, it["fn"])
             e = "dds.eval(" + self.sym(mod, it["fn"], f["module"], "from", imports) + ")"
+        elif k == "raw":
+            return [it["text"], f"_{i} = None"]
         elif k == "shadow":
             # a construct that binds a local name equal to a module variable's name: the module variable is NOT read
             v = it["var"]
@@ -199,6 +208,10 @@ class Renderer:
         table = {
             "if": [f"{t} = None", "if pipehelp.true():", f"    {t} = {e}"],
             "else": [f"{t} = None", "if pipehelp.false():", "    pass", "else:", f"    {t} = {e}"],
+            "thread": [f"{t} = pipehelp.in_thread(lambda: {e})"],
+            "lambda_param": [f"_f{i} = lambda row: row", f"{t} = _f{i}({e})"],
+            "except_as": ["try:", f"    {t} = {e}", "except KeyError as err:", f"    {t} = str(err)"],
+            "nested_def_param": ["def _inner(row):", "    return row", f"{t} = _inner({e})"],
             "if_false": [f"{t} = None", "if pipehelp.false():", f"    {t} = {e}"],   # written, analysed, never executed
             "for": [f"{t} = None", "for _k in range(1):", f"    {t} = {e}"],
             "while": [f"{t} = None", f"while {t} is None:", f"    {t} = {e}"],
@@ -265,7 +278,7 @@ class Renderer:
             parts += [f"str(self.A{i})" for i in range(len(f.get("clsattr", [])))]
         for k in range(self.variant.get("pad:" + name, 0)):
             lines.append(f"{ind}_pad{k} = 0")
-        lines.append(f"{ind}return \"{name}#{tag}(\" + \",\".join([{', '.join(parts)}]) + \")\"")
+        lines.append(f"{ind}return \"{name}#{tag}(\" + \",\".join([{', '.join(parts)}]) + \")\"" + (f" + {f['suffix']!r}" if f.get("suffix") else ""))
         return lines
 
     def module(self, mod):
@@ -303,6 +316,16 @@ class Renderer:
         out = {}
         pk = self.pkg
         dirs = set()
+        hmods = sorted({f["module"][2:] for f in self.spec["funcs"] if f["module"].startswith("H:")})
+        if hmods and pk.startswith("vp"):
+            hp = pk.replace("vp", "vh")
+            out[f"{hp}/__init__.py"] = ""
+            for hm in hmods:
+                body = []
+                for f in self.spec["funcs"]:
+                    if f["module"] == "H:" + hm:
+                        body += [""] + self.func(dict(f, module=hm), set())
+                out[f"{hp}/{hm}.py"] = "import pipelog\nimport pipehelp\nimport dds\n" + "\n".join(body) + "\n"
         for mod in self.spec["modules"]:
             parts = mod.split(".")
             for i in range(len(parts)):
